@@ -30,6 +30,10 @@ func (c *Cluster) RoundTrip(group string, req *http.Request) (*http.Response, er
 		case 5001:
 			// what kubectl reports when an HTTP/2 stream breaks (the library retries an APIService client-side on this text)
 			return status(500, "InternalError", "stream error: stream ID 1; INTERNAL_ERROR; "+msg)
+		case 429:
+			return status(429, "TooManyRequests", msg) // (no Retry-After header: the client does not retry)
+		case 503:
+			return status(503, "ServiceUnavailable", msg)
 		case 403:
 			return status(403, "Forbidden", msg)
 		case 422:
